@@ -82,7 +82,8 @@ def work(task):
                     viol("scale", e["variant"], "scale() = %s (%.17g); definition %s gives exactly %s" % (u["scale_enc"], float(got), e.get("def"), want))
             else:
                 rel = abs(got - want) / want
-                part.ratio(rel / NONTERM_REL, {"backend": b, "type": key, "unit": e["variant"]})
+                if rel <= NONTERM_REL:
+                    part.ratio(rel / NONTERM_REL, {"backend": b, "type": key, "unit": e["variant"]})
                 if rel > NONTERM_REL:
                     viol("scale", e["variant"], "scale() = %.17g; definition %s = %.17g (relative deviation %.3g, allowed %.3g)" % (
                         float(got), e.get("def"), float(want), float(rel), float(NONTERM_REL)))
